@@ -258,6 +258,11 @@ def tltLoad (sortAngles : Bool) : TomoArg α → List α
   | .asGiven l => l
   | .fromFile l => if sortAngles then sortAsc l else l
 
+/-- what the READER of a text file does to every number (`rd`): only the file form is read -/
+def TomoArg.readWith (rd : α → α) : TomoArg α → TomoArg α
+  | .asGiven l => .asGiven l
+  | .fromFile l => .fromFile (l.map rd)
+
 /-- `clean_by_tomo_mask(tomo_list, tomo_masks)` from the argument as handed over: load the list, then the loop -/
 def cleanMaskArgWith (cfg : MaskCfg) (sortFile : Bool) (tr : α → Int) (ta : TomoArg α) (arg : MaskArg) (l : Motl α) :
     Except MaskErr (Motl α) :=
@@ -276,6 +281,11 @@ def cleanMaskArgSorted (tr : α → Int) (ta : TomoArg α) (arg : MaskArg) (l : 
 /-- today's source: operators and the effective `sort_angles` as the translator found them -/
 def cleanMaskArgCode (tr : α → Int) (ta : TomoArg α) (arg : MaskArg) (l : Motl α) :=
   cleanMaskArgWith Gen.C09.maskCfg Gen.C09.maskTomoFileSorted tr ta arg l
+/-- today's source including the READER of a tomogram file: exact when the translator found the 64-bit reader
+(`Gen.C09.maskTomoFileExact`), otherwise every number of the file passes `rd32` (the float32 reader `one_value_per_line_read`
+defaults to) before it is compared with `tomo_id` -/
+def cleanMaskFileCode (rd32 : α → α) (tr : α → Int) (ta : TomoArg α) (arg : MaskArg) (l : Motl α) :=
+  cleanMaskArgCode tr (ta.readWith (if Gen.C09.maskTomoFileExact then id else rd32)) arg l
 
 /-! ### the STATEMENT of the mask clause, executable: what the driver answers as `spec` -/
 
@@ -323,6 +333,24 @@ end ordered
 /-- `cryomap.binarize(mask)`: the voxel counts as non-zero when `value <cmp> threshold` (documented: `value > 0.5`) -/
 def binarizeWith (cfg : BinarizeCfg) (v : Rat) : Bool := cfg.cmp.eval v (mkRat cfg.thrNum cfg.thrDen)
 def binarizeCfgDoc : BinarizeCfg := { cmp := .gt, thrNum := 1, thrDen := 2 }
+
+/-- round a natural number to the nearest multiple of `step`, ties to the even multiple (IEEE round-half-even) -/
+def roundHalfEven (step a : Nat) : Nat :=
+  let q := a / step
+  let r := a % step
+  if 2 * r < step then q * step else if step < 2 * r then (q + 1) * step else if q % 2 = 0 then q * step else (q + 1) * step
+
+/-- **an integer stored as float32** (24-bit significand): exact below 2^24; from 2^k on (k = 24..31) only multiples of
+2^(k-23) exist. Modelled for |n| < 2^32 (tomogram numbers; beyond that the spacing 256 is kept — a partial model). -/
+def f32Int (n : Int) : Int :=
+  let a := n.natAbs
+  let step : Nat :=
+    if a < 2 ^ 24 then 1 else if a < 2 ^ 25 then 2 else if a < 2 ^ 26 then 4 else if a < 2 ^ 27 then 8 else if a < 2 ^ 28 then 16
+    else if a < 2 ^ 29 then 32 else if a < 2 ^ 30 then 64 else if a < 2 ^ 31 then 128 else 256
+  if n < 0 then -((roundHalfEven step a : Nat) : Int) else ((roundHalfEven step a : Nat) : Int)
+
+/-- the same on a rational that holds an integer (tomogram numbers); other values untouched -/
+def f32Rat (q : Rat) : Rat := if q.den = 1 then ((f32Int q.num : Int) : Rat) else q
 
 /-- truncation toward zero of a rational (`numpy` `astype(int)` of a float holding that value) -/
 def truncRat (q : Rat) : Int := Int.tdiv q.num q.den
